@@ -87,15 +87,16 @@ DESCR += [(r"c02_._chunked", "chunked frame cut at every byte offset, then the n
 PROPS["C19"] = dict(
     filters={"quick": ["c19_q", "c19_qtwin"], "thorough": ["c19_"]},
     timeout_s={"quick": 600, "thorough": 1800},
-    kernel=_BODY_KERNEL,
+    kernel=_BODY_KERNEL + ["parse_response_head (returns at the blank line)"],
     bounds="every pause offset of each listed frame (chunked shapes of <=3 chunks, sizes 1..17; length/close bodies of 1..6 bytes) x segmentation before the pause (Whole/OneByte/Max/SplitAt) "
            "x BufReader capacity 1..64 x caller read size 1,2,3,8; payload symbolic; unwind 40",
-    outside="compressed bodies; read-to-EOF helpers (they read to EOF by contract); that send() returns at the blank line is decided in the C04 family (parse_response_head consumes exactly the head)",
+    outside="compressed bodies; read-to-EOF helpers (they read to EOF by contract); heads with header fields for the 'returns at the blank line' clause (header-less heads are decided: c19_*_head_returns_*)",
     stubs=["core::slice::memchr::memchr -> naive byte loop", "core::str::from_utf8 -> byte-wise validator", "io::Error::is_interrupted -> false"],
     assumptions=["'the server pauses' is encoded as: a transport read issued when the cursor is at the pause offset is recorded (end_hits) and answered with WouldBlock",
                  "for chunked bodies only chunks that arrived completely (including their line ending) must be deliverable"],
 )
-DESCR += [(r"c19_._chunked", "chunked frame, server pauses after each offset in the range; every fully arrived chunk must be readable without the transport being asked for more"),
+DESCR += [(r"c19_._head_returns", "parse_response_head on a complete head followed by a pause: returns without asking the transport for more"),
+          (r"c19_._chunked", "chunked frame, server pauses after each offset in the range; every fully arrived chunk must be readable without the transport being asked for more"),
           (r"c19_._(length|close)", "raw body, server pauses after each offset; every arrived byte must be readable without the transport being asked for more")]
 
 PROPS["C05"] = dict(
